@@ -597,7 +597,7 @@ func (x *Exec) callModifies(call *ast.CallExpr, m *modSet) {
 				x.depth--
 				x.pkg = save
 				for k := range sub.heap {
-					m.heap[k] = true
+					m.markHeapUnknown(k)
 				}
 				for k := range sub.ghost {
 					m.ghost[k] = true
@@ -627,7 +627,7 @@ func (x *Exec) callModifies(call *ast.CallExpr, m *modSet) {
 			m.ghost[strings.TrimPrefix(txt, "ghost.")] = true
 		case strings.HasSuffix(txt, ".*"):
 			if key := x.heapKeyFromTypeField(pkg, strings.TrimSuffix(txt, ".*")); key != "" {
-				m.heap[key] = true
+				m.markHeapUnknown(key)
 			}
 		default:
 			// expr.field: resolve field name against receiver/param types
@@ -679,7 +679,7 @@ func (x *Exec) modifiesFieldByName(ct *Contract, fn *types.Func, base, fname str
 			f := su.Field(i)
 			if f.Name() == p || p == "*" {
 				if p == fname {
-					m.heap[x.heapKeyField(t, f.Name(), f.Type())] = true
+					m.markHeapUnknown(x.heapKeyField(t, f.Name(), f.Type()))
 				}
 				if f.Name() == p {
 					t = f.Type()
